@@ -90,3 +90,45 @@ def build():
     u.impl('fpdec', 'binops::cmp::impl Ord for Decimal', {
         'cmp': C(post=[('C08.cmp.by_value', '(valid(*self) && valid(*other)) ==> r == ord_of(val_cmp(*self, *other))')])})
     return u
+
+
+RKYV_SPEC = '''
+/// the Decimal an archived value stands for (same coefficient, same number of fractional digits)
+pub open spec fn adec(a: ArchivedDecimal) -> Decimal { Decimal { coeff: a.coeff, n_frac_digits: a.n_frac_digits } }
+
+pub assume_specification [Ordering::reverse](o: Ordering) -> (r: Ordering)
+    ensures r == (match o { Ordering::Less => Ordering::Greater, Ordering::Equal => Ordering::Equal, Ordering::Greater => Ordering::Less });
+'''
+
+
+def build_rkyv():
+    """feature rkyv: ArchivedDecimal compares (with itself and with Decimal) like the value it archives"""
+    u = Unit('cmp_rkyv', specs=['base.rs', 'rounding.rs', 'decimal.rs', 'std_assumed.rs', 'order.rs'])
+    u.raw(SPEC, 'cmp-spec')
+    u.raw(RKYV_SPEC, 'rkyv-spec')
+    core_kernel.add_core_items(u)
+    common.add_decimal(u)
+    idx = runner.load_sources(('fpdec',), ('rkyv',))['fpdec']
+    u.item('fpdec', 'struct ArchivedDecimal')
+    n = 0
+    for k, it, hp in G.impls_of(idx, 'binops::cmp', 'PartialEq'):
+        if 'ArchivedDecimal' not in k:
+            c = eq_contract(hp)
+            c.stub = True
+            c.entry = None
+            u.impl('fpdec', k, {'eq': c}) if k.endswith('impl PartialEq<Decimal> for Decimal') else None
+            continue
+        u.impl('fpdec', k, {'eq': eq_contract(hp)})
+        n += 1
+    for k, it, hp in G.impls_of(idx, 'binops::cmp', 'PartialOrd'):
+        if 'ArchivedDecimal' not in k:
+            continue
+        u.impl('fpdec', k, {'partial_cmp': pcmp_contract(hp)})
+        n += 1
+    if n != 6:
+        raise rsx.AnchorLost('binops::cmp (feature rkyv): expected 6 ArchivedDecimal comparison impls, found %d' % n)
+    u.impl('fpdec', 'binops::cmp::impl Eq for ArchivedDecimal', {})
+    u.impl('fpdec', 'binops::cmp::impl Ord for ArchivedDecimal', {
+        'cmp': C(post=[('C08.rkyv.cmp.by_value',
+                        '(valid(adec(*self)) && valid(adec(*other))) ==> r == ord_of(val_cmp(adec(*self), adec(*other)))')])})
+    return u
